@@ -15,6 +15,7 @@ JInv == /\ Chk("C01_Definite", C01_Definite(Recs[i]))
         /\ Chk("C03_OwnOutcome", C03_OwnOutcome(Recs[i]))
         /\ Chk("C03_NothingElse", C03_NothingElse(Recs[i]))
         /\ Chk("C03_AfterFinish", C03_AfterFinish(Recs[i]))
+        /\ Chk("C03_BeforeStart", C03_BeforeStart(Recs[i]))
         /\ Chk("C06_Prefix", C06_Prefix(Recs[i]))
         /\ Chk("C06_Ends", C06_Ends(Recs[i]))
         /\ Chk("C06_All", C06_All(Recs[i]))
